@@ -80,7 +80,7 @@ stop := http.S.serve(
 """
 
 
-def http_phase(rng, nreq):
+def http_phase(rng, nreq, blocking=False):
     """the scenario the property names: handlers of the HTTP server module running concurrently with each other and with the main script"""
     t = str(rng.randint(0, 10**6))
     reqs = []
@@ -95,7 +95,10 @@ def http_phase(rng, nreq):
         else:
             reqs.append({"method": "GET", "path": f"/q?qk{t}x{i}=1&common=2", "headers": {}, "body": ""})
     main = [f"m{t}x{i} := {i}; {{mk{t}x{i}: m{t}x{i}}}.keys; \"mk{t}x{i} := 1\".evalEnv.keys" for i in range(nreq)]
-    return {"script": HTTP_SCRIPT % (t, t), "requests": reqs, "main": main, "clients": 8}
+    script = HTTP_SCRIPT % (t, t)
+    if blocking:          # Server.serve without background: the call never returns, handlers still run on goroutines of their own
+        script = script.replace("stop := http.S.serve(", "http.S.serve(").replace("background: true, ", "")
+    return {"script": script, "requests": reqs, "main": main, "clients": 8, "blocking": blocking}
 
 
 def top_frame(frames):
@@ -162,7 +165,7 @@ def run():
         resp = run_cases([{"id": "c", "mode": "conc", "n": ngor, "progs": progs, "deadline_ms": 120000}], binary=binary,
                          nproc=1, label=f"C20 run {ri}")["c"]
         if resp["end"] != "ok":
-            if pvlib.is_host_crash(resp["end"]) and "concurrent map" in resp["end"]:
+            if "concurrent map" in resp["end"]:
                 ck.reject("C20:fatal:concurrent-map", resp["end"], {"n": ngor, "progs": progs[:5], "end": resp["end"]})
                 continue
             raise pvlib.Broken(f"concurrent driver failed: {resp['end']}")
@@ -191,7 +194,8 @@ def run():
         rounds = race_rounds(ck.rng, thorough)
         progs = programs(ck.rng, ngor, 10)
         http = http_phase(ck.rng, 200 if thorough else 80)
-        resp, reports = pvlib.run_race_driver({"n": ngor, "progs": progs, "rounds": rounds, "http": http})
+        http2 = http_phase(ck.rng, 200 if thorough else 80, blocking=True)
+        resp, reports = pvlib.run_race_driver({"n": ngor, "progs": progs, "rounds": rounds, "http": http, "http2": http2})
         if resp.get("end") != "ok":
             end = resp.get("end", "")
             if "concurrent map" in end or "fatal error" in end:
@@ -216,10 +220,14 @@ def run():
         h = resp.get("http") or {}
         if not str(h.get("start", "")).startswith("val:") or h.get("stop") != "val:nil":
             raise pvlib.Broken(f"the HTTP phase did not run: start={h.get('start')!r} stop={h.get('stop')!r}")
-        for k, (a, b) in enumerate(zip(h["conc"], h["ref"])):
-            if a != b:
-                rows.append({"nproc": 0, "g": 1, "ev": "ResultDiffers", "tab": f"http request {k}", "report": [json.dumps(http["requests"][k]), [a], b]})
-        nrace += len(rounds) * ngor + len(progs) + len(http["requests"]) + len(http["main"])
+        h2 = resp.get("http2") or {}
+        if not str(h2.get("start", "")).startswith("val:"):
+            raise pvlib.Broken(f"the blocking-serve HTTP phase did not run: start={h2.get('start')!r}")
+        for hh_, hq in ((h, http), (h2, http2)):
+            for k, (a, b) in enumerate(zip(hh_["conc"], hh_["ref"])):
+                if a != b:
+                    rows.append({"nproc": 0, "g": 1, "ev": "ResultDiffers", "tab": f"http request {k}", "report": [json.dumps(hq["requests"][k]), [a], b]})
+        nrace += len(rounds) * ngor + len(progs) + 2 * (len(http["requests"]) + len(http["main"]))
         if len(rows) > 1:
             res = run_tlc("Trace_C20", files={"c20.ndjson": ndjson([{k: v for k, v in r.items() if k != "report"} for r in rows])}, workers=1, timeout_s=600, prefix=("V ",))
             ck.add_tlc(res, f"Trace_C20 race channel n={ngor}")
@@ -242,7 +250,7 @@ def run():
                       "(symbol actually interned under the write lock); second channel: the production build under the Go race detector, "
                       "barrier rounds (all goroutines evaluate the same program at once: calls with 9..40+ arguments, the same symbol converted "
                       "back and hashed, the same / different new symbols interned at once, JSON keys, keywords, run-time symbols, shared "
-                      "built-in objects), then the random programs, then a real server of the http module answering 80 (thorough 200) requests from 8 clients (new header / query / JSON names, evalEnv in handlers) while the main script goes on; each race report in the interpreter's packages is an Unsync event, "
+                      "built-in objects), then the random programs, then two real servers of the http module (serveBackground and the blocking serve) each answering 80 (thorough 200) requests from 8 clients (new header / query / JSON names, evalEnv in handlers) while the main script goes on; each race report in the interpreter's packages is an Unsync event, "
                       "which PanLockset never enables")
     ck.assumptions = ["events are emitted by build-time auto-instrumentation of package object (harness/cmd/hookgen) at statement "
                       "granularity; only package-level variables declared in object/hashtable.go are tracked",
